@@ -9,6 +9,7 @@
    bridge_run corews   as analyze, without the query section (bad / diags / at)
    bridge_run analyze  stdin: one workspace per line   <root path> ; <path> | <text> ; <path> | <text> ...
                        stdout: {"files":[path..], "lens":[..], "parse_errors":{path:[[lo,hi,"msg"],..]},
+                                "shape_ok":bool (ident_shape of every tree), "noncore_file":k|null,
                                 "ast":"(ws ..)"|null, "noncore":reason|null,
                                 "bad":bool, "diags":[[f,lo,hi,"Kind"],..], "at":[..]}   (bad/diags/at as scope_run model)
                        = Pipeline.analyze: everything from the texts to the query answers inside the extracted model. *)
@@ -228,18 +229,26 @@ let cmd_analyze (queries : bool) line =
     let files = List.map (fun f -> match split_on '|' f with
         | [p; t] -> (text_of p, text_of t)
         | _ -> failwith "analyze: expected  path | text") files in
-    (match analyze big_fuel (nat_of_int (2 * List.length files + 8)) files (text_of root) with
+    (* collect_sources pops the queue at most once per resolved include statement (+ the root): every include
+       statement takes at least 7 characters *)
+    let total = List.fold_left (fun a (_, t) -> a + List.length t) 0 files in
+    (match analyze big_fuel (nat_of_int (total / 7 + List.length files + 8)) files (text_of root) with
      | None -> "{\"error\":\"collect_sources: panic or out of fuel\"}"
      | Some a ->
        let wsf = a.an_files in
        let paths = List.map (fun (_, p) -> path_string p.pf_path) wsf in
-       let lens = List.map (fun (_, p) -> int_of_n p.pf_len) wsf in
+       let lens = List.map (fun (_, p) -> int_of_n (pf_len p)) wsf in
        let perrs_of k = List.filter_map (fun (((f, lo), hi), m) ->
            if int_of_n f = k then Some ((lo, hi), m) else None) a.an_perrs in
        let pe = String.concat "," (List.mapi (fun k p -> Printf.sprintf "\"%s\":%s" (json_escape p) (perrs_json (perrs_of k))) paths) in
-       let head = Printf.sprintf "\"files\":[%s],\"lens\":[%s],\"parse_errors\":{%s}"
+       let rec first_err k = function
+         | [] -> "null"
+         | Err _ :: _ | Fuel :: _ -> string_of_int k
+         | Ok _ :: r -> first_err (k + 1) r in
+       let head = Printf.sprintf "\"files\":[%s],\"lens\":[%s],\"parse_errors\":{%s},\"shape_ok\":%s,\"noncore_file\":%s"
            (String.concat "," (List.map (fun p -> "\"" ^ json_escape p ^ "\"") paths))
-           (String.concat "," (List.map string_of_int lens)) pe in
+           (String.concat "," (List.map string_of_int lens)) pe
+           (if a.an_shape then "true" else "false") (first_err 0 a.an_cores) in
        (match a.an_core with
         | Ok w ->
           let b = Buffer.create 4096 in
